@@ -19,7 +19,7 @@ from typing import Dict, List, Optional, Set, Tuple
 from sa import regexlang
 from sa.callgraph import callgraph
 from sa.cfg import CFG, describe_path
-from sa.checks.c19 import loaded_table_checks_on_every_path, pattern
+from sa.checks.c19 import integer_csv_guard, loaded_table_checks_on_every_path, pattern
 from sa.checks.c26 import CODED, coded_classes
 from sa.core import AnalysisError, Finding, Program, Report, program, src, walk_no_nested
 
@@ -75,6 +75,7 @@ def run(rep: Report, tier: str) -> None:
                        "for every difference; CFG ordering of the pandas duplicate check.")
     rep.rule("R20.1", "the two validators perform the same rejecting checks; duplicates are checked on cast values")
     loaded_table_checks_on_every_path(P, rep, "R20.1")
+    integer_csv_guard(P, rep, "R20.3")
     rep.rule("R20.2", "the two validators accept the same strings for Date / Time / Time_Period (witness for every difference)")
 
     # ---- R20.1 ------------------------------------------------------------------------------------------
